@@ -42,6 +42,15 @@ CHECKS = {
             'desper; KeyError for deferred deletion of an id that owned nothing is accepted (pinned by the '
             'repository tests) but not demanded.',
             'DESIGN.md section 3 / C05'),
+    'C06': ('exploration',
+            'property-based testing (Hypothesis) over generated class DAGs: every class used as query type for '
+            'the six query methods, oracle = issubclass/isinstance (independent of the __subclasses__ walk)',
+            'Randomised search over class hierarchies incl. diamonds and deep multiple inheritance, component '
+            'and processor flavours, all query types of each hierarchy checked exhaustively per case; removal '
+            'queries on rebuilt worlds with full re-evaluation afterwards. Small-scope confidence, no proof.',
+            'Trusts Python issubclass/isinstance as the definition of "subclass"; ABC virtual subclasses out of '
+            'scope; any matching subclass instance accepted when no exact-type object exists.',
+            'DESIGN.md section 3 / C06'),
 }
 
 ALL = ['C%02d' % i for i in range(1, 21)]
